@@ -3,12 +3,12 @@ from . import COMMON_TB, NOTE
 PROP = {
     "modules": [],
     "streams": [{"name": "errloc"}],
-    "rule": "errloc: a placement generator puts exactly one failing construct of one of 32 kinds (syntax error in an object, in the tags "
+    "rule": "errloc: a placement generator puts exactly one failing construct of one of 33 kinds (syntax error in an object, in the tags "
             "assign, cycle, if, unless, case, for, tablerow and in an elsif / when clause - capture checks no syntax, the argument of include is parsed at render time and not placed; unknown tag; "
             "unknown filter; a filter's own error (divided_by, url_decode); conversion errors in a filter and in a range; a render-time "
             "error in an elsif / when expression; unbalanced blocks (missing end, stray end / else / when / elsif, unterminated "
             "comment / raw); strict-mode undefined variable; break/continue/cycle "
-            "outside a loop; non-integer loop modifiers; include of a missing file / non-string / file with an error inside) at every piece "
+            "outside a loop; non-integer loop modifiers; include of a missing file / non-string / file with an error inside / file that includes itself, directly or through a second file: the nesting-limit error of RenderFile, rendered only after the same input has returned in a killable process) at every piece "
             "boundary (every line) of generated error-free templates nested 0..6 deep (if/elsif/else, unless, case/when, for, for-else, tablerow, "
             "capture; multi-line tags and objects), every kind that is applicable there (render-time kinds only at executed positions); "
             "each placement takes ONE spelling of the kind, drawn at random, and ONE of the six combinations (with / without a path) x "
